@@ -185,4 +185,191 @@ theorem boxEnforced_needed (hk : 0 < k) (hk1 : k < 1) :
     (exBool_hyps hk).1, (exBool_hyps hk).2, exBool_not_enforced hk1, ?_⟩
   intro hiff
   exact exBool_not_srcFeasible hk1 (hiff.mpr ⟨fun _ => 1, fun _ _ => rfl, exBool_linFeasible⟩)
+
+/-! ### the definedness hypothesis -/
+
+/-- `min x  s.t.  c: 0 * (x / 0) ≤ 1`, `x` a free real: the constraint is undefined at every assignment. -/
+def exUndef : Model (Ext K) :=
+  { optType := .min, objective := .var "x",
+    constraints := [{ name := "c", lhs := .bin .mul (.num (.fin 0)) (.bin .div (.var "x") (.num (.fin 0))),
+                      cmp := .le, rhs := .num (.fin 1), isAssert := false }],
+    domain := [{ name := "x", ty := .real .ninf .pinf, usage := 1 }] }
+
+def exUndefC : Constraint (Ext K) :=
+  { name := "c", lhs := .bin .mul (.num (.fin 0)) (.bin .div (.var "x") (.num (.fin 0))),
+    cmp := .le, rhs := .num (.fin 1), isAssert := false }
+
+theorem exUndef_norm_lhs : normalizeExp (.bin .mul (.num (.fin 0)) (.bin .div (.var "x") (.num (.fin 0))) : Exp (Ext K))
+    = some (.num (.fin 0)) := by
+  simp [normalizeExp, flattenFuel, flattenF, simplify, mulCore, divCore, isNumEq, ext_eq_fin]
+
+theorem exUndef_norm_rhs : normalizeExp (.num (.fin 1) : Exp (Ext K)) = some (.num (.fin 1)) := by
+  simp [normalizeExp, flattenFuel, flattenF, simplify]
+
+/-- the constraint is folded to `0 ≤ 1`, recognised as a tautology, and dropped. -/
+theorem exUndef_proc (s : St (Ext K)) : processConstraint (exUndefC : Constraint (Ext K)) s = .ok ((), s) := by
+  unfold processConstraint dispatch exUndefC
+  simp only [bind_ok, get_ok, simplifyFlat_ok]
+  refine ⟨_, _, ⟨_, exUndef_norm_lhs, rfl⟩, _, _, ⟨_, exUndef_norm_rhs, rfl⟩, ?_⟩
+  simp only [Bool.false_eq_true, if_false, bind_ok, get_ok]
+  refine ⟨s, s, rfl, ?_⟩
+  have : tryNormalize s.domain (.num (.fin 0) : Exp (Ext K)) .le (.num (.fin 1)) = some .tautology := by
+    simp [tryNormalize, isLogicValue, cmpHolds, Arith.eq, Arith.le, ext_eq_fin, ext_le_fin]
+  simp only [this, pure_ok]
+
+theorem exUndef_drain (s : St (Ext K)) (hs : s.queue = (exUndef : Model (Ext K)).constraints) :
+    drain drainFuel s = .ok ((), { s with queue := [] }) := by
+  have h1 : drainFuel = 999998 + 1 + 1 := rfl
+  rw [h1, drain_succ]
+  simp only [bind_ok, get_ok]
+  refine ⟨s, s, rfl, ?_⟩
+  simp only [hs, exUndef, bind_ok, set_ok]
+  refine ⟨_, _, rfl, _, _, exUndef_proc _, ?_⟩
+  rw [drain_succ]
+  simp only [bind_ok, get_ok]
+  exact ⟨_, _, rfl, by simp [pure_ok]⟩
+
+noncomputable def exUndefLM : LinModel (Ext K) :=
+  assemble exUndef (Ctx.fromVar "x" Arith.one)
+    { queue := [], rows := [], domain := (exUndef : Model (Ext K)).domain, bounds := [] }
+
+theorem exUndef_ok : linearizeWith (exUndef : Model (Ext K)) [] (exUndef : Model (Ext K)).domain = .ok exUndefLM := by
+  let s0 : St (Ext K) := { queue := (exUndef : Model (Ext K)).constraints, domain := (exUndef : Model (Ext K)).domain, bounds := [] }
+  refine (linearizeWith_ok_iff _ _ _ _).mpr
+    ⟨.var "x", s0, Ctx.fromVar "x" Arith.one, s0, _, ?_, ?_, exUndef_drain s0 rfl, rfl⟩
+  · simp [simplifyFlat, normalizeExp, flattenFuel, flattenF, simplify, pure_ok, exUndef, s0]
+  · simp [linExp, pure_ok]
+
+theorem exUndef_linFeasible (ρ : String → K) : linFeasible (exUndefLM : LinModel (Ext K)) ρ = true := by
+  simp [exUndefLM, assemble, linFeasible, exUndef, dedupNames, sortStr, insertSortedDup, inDomain, geExt, leExt]
+
+theorem exUndef_not_srcFeasible (ρ : String → K) : ¬ srcFeasible (exUndef : Model (Ext K)) ρ = true := by
+  intro h
+  have := ((srcFeasible_iff _ _).mp h).1 exUndefC (by simp [exUndef, exUndefC])
+  simp [constraintHolds, exUndefC, eval, binVal] at this
+
+/-- **Why definedness is a hypothesis**: `c: 0 * (x / 0) ≤ 1` has no value at any assignment (division by
+zero), so the source model is infeasible; `simplify` folds the product to `0`, the comparison becomes the
+tautology `0 ≤ 1` and is dropped: every assignment is feasible for the linear model.  Everything else
+`c01_partial` asks for holds (the model is affine, the bounds map is empty). -/
+theorem defined_needed :
+    ∃ (m : Model (Ext K)) (b : BoundsMap (Ext K)) (d : List (DomVar (Ext K))) (lm : LinModel (Ext K)),
+      linearizeWith m b d = .ok lm ∧ DomRel m d ∧ BoxEnforced b d ∧
+      (∀ c ∈ m.constraints, c.isAssert = false ∧ FG true (inScope d) c.lhs ∧ FG true (inScope d) c.rhs) ∧
+      (∀ ρ : String → K, ¬ srcFeasible m ρ = true) ∧ (∀ ρ : String → K, linFeasible lm ρ = true) := by
+  have sx : inScope (exUndef : Model (Ext K)).domain "x" :=
+    ⟨{ name := "x", ty := .real .ninf .pinf, usage := 1 }, by simp [exUndef], rfl, by simp⟩
+  refine ⟨exUndef, [], exUndef.domain, exUndefLM, exUndef_ok, ⟨by simp [exUndef], fun _ h => h, ?_, ?_⟩, ?_, ?_,
+    exUndef_not_srcFeasible, exUndef_linFeasible⟩
+  · intro ρ h; exact ((srcFeasible_iff _ ρ).mp h).2
+  · intro dv hdv hu; exact ⟨dv, hdv, rfl, hu⟩
+  · intro ρ _ n bd hl; simp [lookupB] at hl
+  · intro c hc
+    simp only [exUndef, List.mem_singleton] at hc
+    subst hc
+    exact ⟨rfl, FG_bin.mpr ⟨rfl, FG_num _, FG_bin.mpr ⟨rfl, FG_var.mpr sx, FG_num _⟩⟩, FG_num _⟩
+
+/-! ### a decidable sufficient condition for definedness on the piecewise-linear fragment -/
+
+mutual
+/-- every literal is finite, every divisor is a non-zero finite literal, no `min`/`max` is empty. -/
+noncomputable def wellDef : Exp (Ext K) → Bool
+  | .num v => Arith.isFinite v
+  | .var _ => true
+  | .abs e => wellDef e
+  | .un .neg e => wellDef e
+  | .min es => !es.isEmpty && wellDefList es
+  | .max es => !es.isEmpty && wellDefList es
+  | .bin .div a (.num d) => wellDef a && Arith.isFinite d && !(Arith.eq d Arith.zero)
+  | .bin .div _ _ => false
+  | .bin op a b => isArithOp op && wellDef a && wellDef b
+  | _ => false
+noncomputable def wellDefList : List (Exp (Ext K)) → Bool
+  | [] => true
+  | e :: es => wellDef e && wellDefList es
+end
+
+theorem wellDefList_iff : ∀ es : List (Exp (Ext K)), wellDefList es = true ↔ ∀ e ∈ es, wellDef e = true
+  | [] => by simp [wellDefList]
+  | e :: es => by simp [wellDefList, wellDefList_iff es]
+
+theorem evalList_of_all {ρ : String → K} : ∀ (es : List (Exp (Ext K))), (∀ e ∈ es, ∃ v, eval ρ e = some v) →
+    ∃ vs, evalList ρ es = some vs ∧ vs.length = es.length
+  | [], _ => ⟨[], by simp [evalList], rfl⟩
+  | e :: es, h => by
+    obtain ⟨v, hv⟩ := h e (by simp)
+    obtain ⟨vs, hvs, hl⟩ := evalList_of_all es (fun e' he' => h e' (by simp [he']))
+    exact ⟨v :: vs, by simp [evalList, hv, hvs], by simp [hl]⟩
+
+theorem definedE_of_wellDef : ∀ e : Exp (Ext K), wellDef e = true → DefinedE e := by
+  intro e
+  induction e using Exp.indL with
+  | num v =>
+    intro h ρ
+    simp only [wellDef] at h
+    obtain ⟨k, rfl⟩ := (isFinite_iff v).mp h
+    exact ⟨k, eval_num_fin ρ k⟩
+  | var x => intro _ ρ; exact ⟨ρ x, eval_var ρ x⟩
+  | abs e ih =>
+    intro h ρ
+    simp only [wellDef] at h
+    obtain ⟨v, hv⟩ := ih h ρ
+    exact ⟨kabs v, by rw [eval]; simp [hv]⟩
+  | un op e ih =>
+    intro h ρ
+    cases op with
+    | not => simp [wellDef] at h
+    | neg =>
+      simp only [wellDef] at h
+      obtain ⟨v, hv⟩ := ih h ρ
+      exact ⟨_, eval_negExp hv⟩
+  | max es ih =>
+    intro h ρ
+    simp only [wellDef, Bool.and_eq_true, Bool.not_eq_true', wellDefList_iff] at h
+    obtain ⟨vs, hvs, hl⟩ := evalList_of_all (ρ := ρ) es (fun e he => ih e he (h.2 e he) ρ)
+    cases vs with
+    | nil =>
+      have : es = [] := List.length_eq_zero_iff.mp hl.symm
+      rw [this] at h; simp at h
+    | cons x xs => exact ⟨_, eval_max_of_list hvs⟩
+  | min es ih =>
+    intro h ρ
+    simp only [wellDef, Bool.and_eq_true, Bool.not_eq_true', wellDefList_iff] at h
+    obtain ⟨vs, hvs, hl⟩ := evalList_of_all (ρ := ρ) es (fun e he => ih e he (h.2 e he) ρ)
+    cases vs with
+    | nil =>
+      have : es = [] := List.length_eq_zero_iff.mp hl.symm
+      rw [this] at h; simp at h
+    | cons x xs => exact ⟨_, eval_min_of_list hvs⟩
+  | bin op a b iha ihb =>
+    intro h ρ
+    cases op with
+    | div =>
+      rcases num_or_not b with ⟨d, rfl⟩ | hnb
+      · simp only [wellDef, Bool.and_eq_true, Bool.not_eq_true'] at h
+        obtain ⟨⟨ha, hfd⟩, hd0⟩ := h
+        obtain ⟨k, rfl⟩ := (isFinite_iff d).mp hfd
+        obtain ⟨v, hv⟩ := iha ha ρ
+        have hk : k ≠ 0 := by
+          intro hk0; rw [hk0] at hd0
+          simp [Arith.eq, ext_eq_fin] at hd0
+        exact ⟨v / k, by simp [eval_bin, hv, eval_num_fin, binVal, hk]⟩
+      · exfalso
+        cases b <;> simp [wellDef] at h
+        exact hnb _ rfl
+    | add =>
+      simp only [wellDef, isArithOp, Bool.and_eq_true, Bool.true_and] at h
+      obtain ⟨x, hx⟩ := iha h.1 ρ; obtain ⟨y, hy⟩ := ihb h.2 ρ
+      exact ⟨x + y, by simp [eval_bin, hx, hy, binVal]⟩
+    | sub =>
+      simp only [wellDef, isArithOp, Bool.and_eq_true, Bool.true_and] at h
+      obtain ⟨x, hx⟩ := iha h.1 ρ; obtain ⟨y, hy⟩ := ihb h.2 ρ
+      exact ⟨x - y, by simp [eval_bin, hx, hy, binVal]⟩
+    | mul =>
+      simp only [wellDef, isArithOp, Bool.and_eq_true, Bool.true_and] at h
+      obtain ⟨x, hx⟩ := iha h.1 ρ; obtain ⟨y, hy⟩ := ihb h.2 ρ
+      exact ⟨x * y, by simp [eval_bin, hx, hy, binVal]⟩
+    | _ => simp [wellDef, isArithOp] at h
+  | _ => intro h; simp [wellDef] at h
+
 end Rooc.LinP
